@@ -1,13 +1,139 @@
-// niche repro native check
-use mtokio::sync::mpsc;
-enum M { Data { buf: Vec<u8>, first: bool, last: bool, c: u32 }, Ports { v: Vec<u16>, first: bool, last: bool, c: u32 }, Finished }
-type Tx = mpsc::UnboundedSender<M>;
-enum PC { A { r: mtokio::sync::oneshot::Sender<u8> }, B { p: u32, t: Option<Tx>, x: bool, y: bool, z: bool, w: bool } }
-fn main() {
+//! Native conformance of the tokio MODEL (/verif/models/tokio) against REAL tokio 1.49:
+//! the same scripted operation sequences are run against both and every observable result is
+//! recorded as text; any difference is reported and fails the run.  Only the synchronous part of
+//! the API is scripted (try_send / try_recv / try_reserve / permits / capacity / close / drop /
+//! oneshot / watch): that is what the registered harnesses observe the channels through.
+//! Also keeps the native counterpart of the Kani 0.68 spurious counterexample (DESIGN.md 0.3).
+
+macro_rules! scripts {
+    ($tk:ident, $log:ident) => {{
+        use $tk::sync::{mpsc, oneshot, watch};
+        // ---- bounded mpsc: capacity accounting incl. permits, FIFO, full, close, drop
+        {
+            let (tx, mut rx) = mpsc::channel::<u32>(2);
+            $log.push(format!("cap0 {}", tx.capacity()));
+            $log.push(format!("send1 {:?}", tx.try_send(1).is_ok()));
+            let p = tx.try_reserve();
+            $log.push(format!("reserve {:?} cap {}", p.is_ok(), tx.capacity()));
+            $log.push(format!("send_full {:?}", tx.try_send(9).map_err(|e| matches!(e, mpsc::error::TrySendError::Full(9)))));
+            $log.push(format!("reserve_full {:?}", tx.try_reserve().map(|_| ()).map_err(|e| matches!(e, mpsc::error::TrySendError::Full(())))));
+            p.unwrap().send(2);
+            $log.push(format!("recv {:?} {:?} {:?}", rx.try_recv().ok(), rx.try_recv().ok(), rx.try_recv().map_err(|e| e == mpsc::error::TryRecvError::Empty)));
+            // dropped permit gives the slot back
+            let p2 = tx.try_reserve().unwrap();
+            let p3 = tx.try_reserve().unwrap();
+            $log.push(format!("cap_reserved {}", tx.capacity()));
+            drop(p2);
+            $log.push(format!("cap_after_drop {}", tx.capacity()));
+            p3.send(3);
+            // close: queued values still come out, sends fail
+            rx.close();
+            $log.push(format!("closed {} send {:?}", tx.is_closed(), tx.try_send(4).map_err(|e| matches!(e, mpsc::error::TrySendError::Closed(4)))));
+            $log.push(format!("drain {:?} {:?}", rx.try_recv().ok(), rx.try_recv().map_err(|e| e == mpsc::error::TryRecvError::Disconnected)));
+        }
+        {
+            // all senders dropped: queued values first, then Disconnected
+            let (tx, mut rx) = mpsc::channel::<u32>(4);
+            let tx2 = tx.clone();
+            tx.try_send(1).unwrap();
+            drop(tx);
+            $log.push(format!("one_left {:?}", rx.try_recv().ok()));
+            $log.push(format!("empty {:?}", rx.try_recv().map_err(|e| e == mpsc::error::TryRecvError::Empty)));
+            tx2.try_send(2).unwrap();
+            drop(tx2);
+            $log.push(format!("after_drop {:?} {:?}", rx.try_recv().ok(), rx.try_recv().map_err(|e| e == mpsc::error::TryRecvError::Disconnected)));
+        }
+        {
+            // receiver dropped: send fails with Closed and hands the value back
+            let (tx, rx) = mpsc::channel::<u32>(1);
+            drop(rx);
+            $log.push(format!("rx_gone {:?} {}", tx.try_send(5).map_err(|e| matches!(e, mpsc::error::TrySendError::Closed(5))), tx.is_closed()));
+        }
+        // ---- unbounded mpsc
+        {
+            let (tx, mut rx) = mpsc::unbounded_channel::<u32>();
+            for i in 0..5 { tx.send(i).unwrap(); }
+            let mut got = Vec::new();
+            while let Ok(v) = rx.try_recv() { got.push(v); }
+            $log.push(format!("unbounded {:?}", got));
+            drop(tx);
+            $log.push(format!("unbounded_end {:?}", rx.try_recv().map_err(|e| e == mpsc::error::TryRecvError::Disconnected)));
+            let (tx, rx) = mpsc::unbounded_channel::<u32>();
+            drop(rx);
+            $log.push(format!("unbounded_rx_gone {:?} {}", tx.send(1).is_err(), tx.is_closed()));
+        }
+        // ---- oneshot
+        {
+            let (tx, mut rx) = oneshot::channel::<u8>();
+            $log.push(format!("os_empty {:?}", rx.try_recv().map_err(|e| e == oneshot::error::TryRecvError::Empty)));
+            $log.push(format!("os_send {:?}", tx.send(7)));
+            $log.push(format!("os_recv {:?}", rx.try_recv().ok()));
+            let (tx, mut rx) = oneshot::channel::<u8>();
+            drop(tx);
+            $log.push(format!("os_closed {:?}", rx.try_recv().map_err(|e| e == oneshot::error::TryRecvError::Closed)));
+            let (tx, rx) = oneshot::channel::<u8>();
+            drop(rx);
+            $log.push(format!("os_rx_gone {:?} ", tx.send(1)));
+            let (tx, mut rx) = oneshot::channel::<u8>();
+            rx.close();
+            $log.push(format!("os_rx_closed {} {:?}", tx.is_closed(), tx.send(2)));
+        }
+        // ---- watch
+        {
+            let (tx, mut rx) = watch::channel(1u32);
+            $log.push(format!("w0 {} {:?}", *rx.borrow(), rx.has_changed().ok()));
+            tx.send(2).unwrap();
+            $log.push(format!("w1 {:?} {}", rx.has_changed().ok(), *rx.borrow_and_update()));
+            $log.push(format!("w2 {:?}", rx.has_changed().ok()));
+            tx.send_replace(3);
+            let rx2 = rx.clone();
+            $log.push(format!("w3 {:?} {} clone {:?}", rx.has_changed().ok(), *rx.borrow(), rx2.has_changed().ok()));
+            tx.send_modify(|v| *v += 1);
+            $log.push(format!("w4 {}", *rx.borrow_and_update()));
+            drop(tx);
+            $log.push(format!("w_closed {:?} {}", rx.has_changed().is_err(), *rx.borrow()));
+            let (tx, rx) = watch::channel(0u8);
+            drop(rx);
+            $log.push(format!("w_no_rx {:?} {}", tx.send(1).is_err(), tx.is_closed()));
+        }
+    }};
+}
+
+fn kani_niche_repro() {
+    // native counterpart of the spurious Kani 0.68 counterexample (DESIGN.md 0.3)
+    use mtokio::sync::mpsc;
+    #[allow(dead_code)]
+    enum M { Data { buf: Vec<u8>, first: bool, last: bool, c: u32 }, Ports { v: Vec<u16>, first: bool, last: bool, c: u32 }, Finished }
+    type Tx = mpsc::UnboundedSender<M>;
+    #[allow(dead_code)]
+    enum PC { A { r: mtokio::sync::oneshot::Sender<u8> }, B { p: u32, t: Option<Tx>, x: bool, y: bool, z: bool, w: bool } }
     let (tx, mut rx) = mpsc::unbounded_channel();
     let mut ps = PC::B { p: 7, t: Some(tx), x: false, y: false, z: false, w: false };
     let ok = match &mut ps { PC::B { t: Some(tx), .. } => tx.send(M::Finished).is_ok(), _ => false };
     assert!(ok);
-    match rx.try_recv() { Ok(M::Finished) => println!("native: Finished OK"), Ok(_) => panic!("native: wrong variant"), Err(_) => panic!("native: empty") }
+    match rx.try_recv() { Ok(M::Finished) => (), Ok(_) => panic!("native: wrong variant"), Err(_) => panic!("native: empty") }
     std::mem::forget(ps);
+}
+
+fn main() {
+    let mut model: Vec<String> = Vec::new();
+    let mut real: Vec<String> = Vec::new();
+    scripts!(mtokio, model);
+    scripts!(rtokio, real);
+    let mut diffs = 0;
+    for (i, (m, r)) in model.iter().zip(real.iter()).enumerate() {
+        if m != r {
+            println!("DIFF step {i}: model `{m}` real `{r}`");
+            diffs += 1;
+        }
+    }
+    if model.len() != real.len() {
+        println!("DIFF: {} model observations vs {} real", model.len(), real.len());
+        diffs += 1;
+    }
+    kani_niche_repro();
+    println!("conformance: {} observations compared, {} differences", real.len(), diffs);
+    if diffs > 0 {
+        std::process::exit(1);
+    }
 }
